@@ -487,6 +487,12 @@ def _main_in_scratch():
     tempfile.tempdir = None
     try:
         return main()
+    except SystemExit:
+        raise
+    except BaseException:     # whatever goes wrong in the harness itself is a harness error (exit 2), never a verdict
+        traceback.print_exc()
+        print('HARNESS-ERROR the runner itself failed')
+        return 2
     finally:
         shutil.rmtree(scratch, ignore_errors=True)
 
